@@ -48,6 +48,8 @@ def chain_rules(body: List[ast.stmt]) -> List[Tuple[Optional[ast.AST], ast.AST, 
 
 def eval_guard(g: ast.AST, ops: Dict[str, Operand], const_names: Dict[str, str]) -> bool:
     """const_names maps source text of the constants ('self.y' -> 'y', 'n' -> 'n', ...)."""
+    if isinstance(g, ast.Constant) and isinstance(g.value, bool):
+        return g.value
     if isinstance(g, ast.BoolOp):
         vs = [eval_guard(v, ops, const_names) for v in g.values]
         return all(vs) if isinstance(g.op, ast.And) else any(vs)
